@@ -26,6 +26,10 @@ def obligations(tier):
             if m >= 5 and tier == "quick":
                 continue
             obs.append(Ob(f"L3.build_rendering[z={z},m={m}]", "c17.py", "build_rendering", {"z": z, "m": m}, timeout=t))
+    # the same step under a pattern with a resettable part right of BUILD (NUM is reset on every bump because BUILD changed)
+    for z, m in ((0, 4), (1, 4), (1, 3), (2, 3)):
+        obs.append(Ob(f"L1.build_step[z={z},m={m}; vYYYY.BUILD[-TAG[NUM]]]", "c17.py", "build_step",
+                      {"z": z, "m": m, "bump_pattern": "vYYYY.BUILD[-TAG[NUM]]"}, timeout=t))
     for m in range(1, 4):
         for z in range(0, 4 - m):
             obs.append(Ob(f"L2.second_step[z={z},m={m}]", "c17.py", "build_second_step", {"z": z, "m": m}, timeout=t))
